@@ -289,4 +289,68 @@ def extra(uni, tier, seed):
                      f"{n_ok} regions give the host-only result",
                      kind="bounded run-time contract: 8 regions on the "
                           "device-memory model", count=n_ok, bounded=True))
+    # the generated movements are those of the region as written: a region
+    # edited after the directive was created (in the tree or in a copy)
+    n_ok = 0
+    for cid, ok, detail in A.edited_region_cases():
+        if ok:
+            n_ok += 1
+            continue
+        out.append(Extra(
+            f"bounded#clauses-of-edited-region[{cid}]", False, detail[:300],
+            bounded=True, kind="bounded run-time contract: clauses after "
+            "the region body was edited",
+            replay={"confirmed": True, "case": cid, "observed": detail}))
+    out.append(Extra("bounded#clauses-of-edited-region", True,
+                     f"{n_ok} edited regions move the newly used arrays",
+                     kind="bounded run-time contract: region edited in the "
+                          "tree, a copy and a copy of a copy", count=n_ok,
+                     bounded=True))
+    out += copy_chain(uni)
+    return out
+
+
+def copy_chain(uni):
+    """the clauses of a data region in a COPIED tree are refreshed only if
+    the copy has tree updates enabled: that postcondition of
+    Node._refine_copy (contract of C15) is part of the chain; its VCs are
+    generated from the current source and discharged here as well"""
+    import hashlib
+    from pyvc.runner import Extra
+    from pyvc.extract import Repo
+    from pyvc.interp import Universe
+    from pyvc.verify import verify_function
+    from pyvc.smt import _solve
+    from contracts import C15
+    from realise import acc_model as A
+    u2 = Universe(Repo())
+    u2.kf_classes = {}
+    c = [c for c in C15.build(u2) if c.name.endswith("Node._refine_copy")][0]
+    rep = verify_function(u2, c)
+    out, n_ok = [], 0
+    for ob in rep.obligations:
+        if "tree_updates_enabled" not in ob.name:
+            continue
+        text = ob.smt2()
+        _, r, _, _ = _solve((hashlib.sha256(text.encode()).hexdigest(),
+                             text, 20000, True))
+        if r == "unsat":
+            n_ok += 1
+            continue
+        bad = [x for x in A.edited_region_cases() if not x[1]]
+        out.append(Extra(
+            f"C15:{ob.name}", False, f"solver: {r}",
+            kind="VC of Node._refine_copy (contract of C15)",
+            undecided=(r != "sat"),
+            replay={"confirmed": bool(bad), "obligation": ob.name,
+                    "solver": r,
+                    "observed": bad[0][2] if bad else "not reproduced"}))
+    for k, v in u2.repo.used.items():
+        uni.repo.used[k] = v
+    out.append(Extra(
+        "C15:Node._refine_copy#tree_updates_enabled",
+        bool(out) or (n_ok > 0 and not rep.unsupported),
+        f"{n_ok} obligations discharged",
+        kind="VCs of the Node._refine_copy contract (shared with C15)",
+        count=n_ok, undecided=bool(rep.unsupported)))
     return out
